@@ -12,16 +12,32 @@ def shapeSize (s : Shape) : Nat := s.foldl (· * ·) 1
     and — when weights are given — one weight array per data component, each with the data's number of elements. -/
 def checkFitInput (coords data : List Shape) (weights : Option (List Shape)) : Except Err Unit :=
   match coords with
-  | [] => .error .other
+  | [] =>
+    -- no coordinate arrays: `coordinates[0]` is an IndexError as soon as there is a data array to compare it with
+    if !data.isEmpty then .error .other
+    else match weights with
+      | none => .ok ()
+      | some ws => if ws.length ≠ data.length then .error .valueError else .ok ()
   | c0 :: cs =>
     if !(cs.all fun c => c == c0) then .error .valueError
     else if !(data.all fun d => d == c0) then .error .valueError
     else match weights with
       | none => .ok ()
       | some ws =>
-        if ws.length ≠ data.length then .error .valueError
+        if ws.isEmpty then .ok ()        -- an empty tuple of weights holds no weight: treated as "no weights"
+        else if ws.length ≠ data.length then .error .valueError
         else if !(ws.all fun w => data.all fun d => shapeSize w == shapeSize d) then .error .valueError
         else .ok ()
+
+/-! Primitives the statement-by-statement translation of `check_coordinates` / `check_fit_input` (Gen/Base.lean) is written in:
+    an array is represented by its shape (`.shape` is the value itself, `.size` the product). -/
+/-- `shapes[k]` (`IndexError` when out of range). -/
+def idxS (l : List Shape) (k : Nat) : Except Err Shape :=
+  match l[k]? with | some v => .ok v | none => .error .other
+/-- `w.size` where `w` may be `None` (`AttributeError`). -/
+def sizeOpt : Option Shape → Except Err Nat
+  | some s => .ok (shapeSize s)
+  | none => .error .other
 
 /-! ### Life cycle -/
 
